@@ -677,6 +677,11 @@ bool Instance::configure_tx_txin() {
 
 uint256 Instance::calc_sighash() {
     uint256 hash;
+    if (tx->vin.size() != 1) {
+        // the digest commits to the outputs spent by ALL inputs; only the one given with --txin is known
+        fprintf(stderr, "cannot compute the taproot signature hash of a transaction with %zu inputs: only the output spent by one of them is known\n", tx->vin.size());
+        exit(1);
+    }
     std::vector<CTxOut> spent_outputs;
     spent_outputs.emplace_back(txin->vout[txin_vout_index]);
     txdata = PrecomputedTransactionData();
